@@ -23,10 +23,13 @@ package webrtc
 // Matching descriptions are expected to connect; that is counted, not asserted.
 
 import (
+	"bytes"
+	"context"
 	"crypto/ecdsa"
 	"crypto/rand"
 	"crypto/sha1" //nolint:gosec
 	"crypto/sha256"
+	"crypto/tls"
 	"crypto/x509"
 	"crypto/x509/pkix"
 	"encoding/hex"
@@ -37,6 +40,8 @@ import (
 	"testing"
 	"time"
 
+	"github.com/pion/dtls/v3"
+	"github.com/pion/webrtc/v4/internal/mux"
 	"github.com/pion/webrtc/v4/pkg/media"
 	"pgregory.net/rapid"
 )
@@ -715,5 +720,333 @@ func TestVerif_C14_DigitPositions(t *testing.T) {
 	}
 	s.SetExhaustive(vfTier() == "thorough")
 	s.Extra("digit_positions", len(positions))
+	vfFamDParallel(len(cases), 4, func(i int) bool { return s.One(cases[i]) })
+}
+
+// ---- a foreign DTLS endpoint that presents a certificate LIST ---------------------------------
+//
+// pion itself always sends exactly one certificate, so a pion-vs-pion pair never shows what the
+// victim does with the rest of a peer's Certificate message.  Here the victim is an ordinary
+// ICE + DTLS transport (ORTC API) started with remote parameters that carry the fingerprints
+// of certificate G, of A, of both or of a third one; the peer is a raw pion/dtls endpoint on
+// the ICE mux that holds key A and presents [A], [A,G], [A,X,G], [A,G,X] or [A,G,G].  DTLS
+// proves possession of the key of the FIRST certificate only, certificates are public, so the
+// peer's certificate is A.  Oracle = part (ii): verification enabled and A's fingerprint not
+// signalled => the victim is never observed DTLS connected; the conclusive good outcome is
+// Start returning an error / state failed; a watchdog expiry is inconclusive.
+
+type vfC14ChainCase struct {
+	Signalled      string `json:"signalled"`     // G | A | both | neither
+	Chain          string `json:"chain"`         // A | A,G | A,X,G | A,G,X | A,G,G
+	VictimServer   bool   `json:"victim_server"` // victim is the DTLS server (peer = raw client) or the client
+	A              int    `json:"a"`             // pool index of the peer's own certificate (0..5, 4..5 RSA)
+	G              int    `json:"g"`             // pool index of the honest certificate (ECDSA 0..3)
+	VerifyDisabled bool   `json:"verify_disabled,omitempty"`
+}
+
+type vfC14Half struct {
+	api      *API
+	gatherer *ICEGatherer
+	ice      *ICETransport
+	cands    []ICECandidate
+	params   ICEParameters
+}
+
+func vfC14NewHalf(se func(*SettingEngine)) (*vfC14Half, error) {
+	api, err := vfFamDBuildAPI(vfFamDPeer{SE: se}, nil)
+	if err != nil {
+		return nil, err
+	}
+	g, err := api.NewICEGatherer(ICEGatherOptions{})
+	if err != nil {
+		return nil, err
+	}
+	h := &vfC14Half{api: api, gatherer: g}
+	done := make(chan struct{})
+	var once sync.Once
+	g.OnLocalCandidate(func(c *ICECandidate) {
+		if c == nil {
+			once.Do(func() { close(done) })
+		}
+	})
+	if err = g.Gather(); err != nil {
+		_ = g.Close()
+		return nil, err
+	}
+	select {
+	case <-done:
+	case <-time.After(vfFamDGatherWatchdog):
+		_ = g.Close()
+		return nil, errVfFamDGatherTimeout
+	}
+	if h.cands, err = g.GetLocalCandidates(); err != nil {
+		_ = g.Close()
+		return nil, err
+	}
+	if h.params, err = g.GetLocalParameters(); err != nil {
+		_ = g.Close()
+		return nil, err
+	}
+	h.ice = api.NewICETransport(g)
+	return h, nil
+}
+
+func vfC14ChainRun(v *vfT, c vfC14ChainCase) {
+	certA := vfFamDCert(c.A)
+	certG := vfFamDCertEC(c.G)
+	// a third, unrelated certificate; all three distinct
+	var certX Certificate
+	found := 0
+	for i := 0; i < vfFamDNumEC; i++ {
+		cand := vfFamDCertEC(i)
+		if !bytes.Equal(cand.x509Cert.Raw, certA.x509Cert.Raw) && !bytes.Equal(cand.x509Cert.Raw, certG.x509Cert.Raw) {
+			certX = cand
+			found++
+			break
+		}
+	}
+	if found == 0 || bytes.Equal(certA.x509Cert.Raw, certG.x509Cert.Raw) {
+		v.Skip("certificates not distinct")
+	}
+	var chain [][]byte
+	for _, n := range strings.Split(c.Chain, ",") {
+		switch n {
+		case "A":
+			chain = append(chain, certA.x509Cert.Raw)
+		case "G":
+			chain = append(chain, certG.x509Cert.Raw)
+		case "X":
+			chain = append(chain, certX.x509Cert.Raw)
+		default:
+			v.Skip("bad chain")
+		}
+	}
+	if len(chain) == 0 || !bytes.Equal(chain[0], certA.x509Cert.Raw) {
+		v.Skip("the peer can only lead with the certificate whose key it holds")
+	}
+	fp := func(der []byte) DTLSFingerprint { return DTLSFingerprint{Algorithm: "sha-256", Value: vfC14SHA256(der)} }
+	var signalled []DTLSFingerprint
+	switch c.Signalled {
+	case "G":
+		signalled = []DTLSFingerprint{fp(certG.x509Cert.Raw)}
+	case "A":
+		signalled = []DTLSFingerprint{fp(certA.x509Cert.Raw)}
+	case "both":
+		signalled = []DTLSFingerprint{fp(certG.x509Cert.Raw), fp(certA.x509Cert.Raw)}
+	case "neither":
+		signalled = []DTLSFingerprint{fp(certX.x509Cert.Raw)}
+	default:
+		v.Skip("bad signalled")
+	}
+	leafMatches := c.Signalled == "A" || c.Signalled == "both"
+	v.Label("chain=" + c.Chain)
+	v.Label("signalled=" + c.Signalled)
+	if c.VictimServer {
+		v.Label("victim=dtls-server")
+	} else {
+		v.Label("victim=dtls-client")
+	}
+
+	victim, err := vfC14NewHalf(func(se *SettingEngine) { se.DisableCertificateFingerprintVerification(c.VerifyDisabled) })
+	if err != nil {
+		v.Label("inconclusive:chain/gather")
+		return
+	}
+	peer, err := vfC14NewHalf(nil)
+	if err != nil {
+		_ = victim.gatherer.Close()
+		v.Label("inconclusive:chain/gather")
+		return
+	}
+	vdtls, err := victim.api.NewDTLSTransport(victim.ice, []Certificate{vfFamDCertEC(c.G + 1)})
+	if err != nil {
+		v.Skip("NewDTLSTransport: " + err.Error())
+	}
+	var smu sync.Mutex
+	var states []DTLSTransportState
+	vdtls.OnStateChange(func(s DTLSTransportState) {
+		smu.Lock()
+		states = append(states, s)
+		smu.Unlock()
+	})
+	ctx, cancel := context.WithTimeout(context.Background(), vfC14ConnectWatchdog)
+	var peerConn *dtls.Conn
+	var pmu sync.Mutex
+	defer func() {
+		cancel()
+		pmu.Lock()
+		if peerConn != nil {
+			_ = peerConn.Close()
+		}
+		pmu.Unlock()
+		_ = vdtls.Stop()
+		_ = victim.ice.Stop()
+		_ = peer.ice.Stop()
+	}()
+
+	type res struct {
+		stage string
+		err   error
+	}
+	victimRes := make(chan res, 1)
+	go func() {
+		role := ICERoleControlling
+		if e := victim.ice.SetRemoteCandidates(peer.cands); e != nil {
+			victimRes <- res{"ice", e}
+			return
+		}
+		if e := victim.ice.Start(nil, peer.params, &role); e != nil {
+			victimRes <- res{"ice", e}
+			return
+		}
+		remoteRole := DTLSRoleClient // the remote is client => the victim is the server
+		if !c.VictimServer {
+			remoteRole = DTLSRoleServer
+		}
+		victimRes <- res{"dtls", vdtls.Start(DTLSParameters{Role: remoteRole, Fingerprints: signalled})}
+	}()
+	peerRes := make(chan res, 1)
+	go func() {
+		role := ICERoleControlled
+		if e := peer.ice.SetRemoteCandidates(victim.cands); e != nil {
+			peerRes <- res{"ice", e}
+			return
+		}
+		if e := peer.ice.Start(nil, victim.params, &role); e != nil {
+			peerRes <- res{"ice", e}
+			return
+		}
+		ep := peer.ice.newEndpoint(mux.MatchDTLS)
+		presented := tls.Certificate{Certificate: chain, PrivateKey: certA.privateKey}
+		shared := []dtls.Option{
+			dtls.WithCertificates(presented),
+			dtls.WithInsecureSkipVerify(true),
+			dtls.WithSRTPProtectionProfiles(defaultSrtpProtectionProfiles()...),
+		}
+		var conn *dtls.Conn
+		var e error
+		if c.VictimServer {
+			opts := make([]dtls.ClientOption, 0, len(shared))
+			for _, o := range shared {
+				opts = append(opts, o)
+			}
+			conn, e = dtls.ClientWithOptions(ep, ep.RemoteAddr(), opts...)
+		} else {
+			opts := make([]dtls.ServerOption, 0, len(shared))
+			for _, o := range shared {
+				opts = append(opts, o)
+			}
+			conn, e = dtls.ServerWithOptions(ep, ep.RemoteAddr(), opts...)
+		}
+		if e != nil {
+			peerRes <- res{"dtls-config", e}
+			return
+		}
+		pmu.Lock()
+		peerConn = conn
+		pmu.Unlock()
+		peerRes <- res{"dtls", conn.HandshakeContext(ctx)}
+	}()
+
+	var vr res
+	gotVictim := false
+	select {
+	case vr = <-victimRes:
+		gotVictim = true
+	case <-time.After(vfC14ConnectWatchdog):
+	}
+	time.Sleep(10 * time.Millisecond)
+	smu.Lock()
+	seen := append([]DTLSTransportState{}, states...)
+	smu.Unlock()
+	connected := vdtls.State() == DTLSTransportStateConnected
+	failed := false
+	for _, s := range seen {
+		connected = connected || s == DTLSTransportStateConnected
+		failed = failed || s == DTLSTransportStateFailed || s == DTLSTransportStateClosed
+	}
+	if gotVictim && vr.stage == "ice" {
+		v.Label("inconclusive:chain/ice-start-error")
+		return
+	}
+	if leafMatches || c.VerifyDisabled {
+		switch {
+		case connected && leafMatches:
+			v.Label("chain:leaf-matches:connected")
+			v.NonTrivial()
+		case connected:
+			v.Label("chain:unverified:connected")
+		case failed:
+			v.Label("chain:leaf-matches-or-unverified:failed(not asserted)")
+			v.Logf("C14 chain %+v: victim start: %v", c, vr.err)
+		default:
+			v.Label("inconclusive:chain/no-outcome")
+		}
+		return
+	}
+	if connected || (gotVictim && vr.stage == "dtls" && vr.err == nil) {
+		v.Violation("C14/dtls-connected-despite-mismatch/foreign-chain="+c.Chain,
+			"the peer holds the key of certificate A only and presented the list [%s]; the remote parameters carry the fingerprint(s) of %s, not A's (A sha-256 %s, signalled %v); victim (DTLS %s) Start returned %v, states %v, state now %s",
+			c.Chain, c.Signalled, vfC14SHA256(certA.x509Cert.Raw), signalled,
+			map[bool]string{true: "server", false: "client"}[c.VictimServer], vr.err, seen, vdtls.State())
+	}
+	if failed || (gotVictim && vr.err != nil) {
+		v.Label("chain:leaf-mismatch:rejected")
+		v.NonTrivial()
+		return
+	}
+	v.Label("inconclusive:chain/no-outcome")
+}
+
+func TestVerif_C14_ForeignChain(t *testing.T) {
+	var cases []vfC14ChainCase
+	k := 0
+	for _, vs := range []bool{true, false} {
+		for _, sig := range []string{"G", "A", "both", "neither"} {
+			for _, ch := range []string{"A", "A,G", "A,X,G", "A,G,X", "A,G,G"} {
+				k++
+				c := vfC14ChainCase{Signalled: sig, Chain: ch, VictimServer: vs, A: k % 4, G: (k + 1 + k/4%2) % 4}
+				if c.A == c.G {
+					c.G = (c.G + 1) % 4
+				}
+				cases = append(cases, c)
+				if vfTier() == "thorough" {
+					rsa := c
+					rsa.A = 4 + k%2
+					cases = append(cases, rsa)
+					un := c
+					un.VerifyDisabled = true
+					cases = append(cases, un)
+				}
+			}
+		}
+	}
+	if vfTier() != "thorough" {
+		// one RSA-keyed peer and one unverified victim in the quick tier as well
+		cases = append(cases, vfC14ChainCase{Signalled: "G", Chain: "A,G", VictimServer: true, A: 4, G: 1},
+			vfC14ChainCase{Signalled: "G", Chain: "A,G", VictimServer: false, A: 0, G: 1, VerifyDisabled: true})
+	}
+	if sh, n := vfShard(); n > 1 {
+		var mine []vfC14ChainCase
+		for i, c := range cases {
+			if i%n == sh {
+				mine = append(mine, c)
+			}
+		}
+		cases = mine
+	}
+	s := vfOpen(t, "C14", vfOpts{
+		Rule: "foreign DTLS endpoint (raw pion/dtls on the ICE mux, key of certificate A) presenting the list [A] | [A,G] | [A,X,G] | [A,G,X] | [A,G,G] x remote parameters carrying the fingerprint of G | A | both | a third certificate x victim = DTLS server | client (thorough: x RSA-keyed peer, x verification disabled); non-trivial = leaf matches and the victim connected, or leaf does not match and the rejection was observed",
+		Assumptions: []string{
+			"the certificate of a DTLS peer is the first one of its Certificate message (the only one whose key the handshake proves); further certificates are public data anybody can append",
+		},
+	}, vfC14ChainRun)
+	defer s.Close()
+	s.SetSampleEvery(len(cases)/5 + 1)
+	if s.Replay() {
+		return
+	}
+	s.SetExhaustive(true)
+	s.Extra("foreign_chain_cases", len(cases))
 	vfFamDParallel(len(cases), 4, func(i int) bool { return s.One(cases[i]) })
 }
